@@ -35,7 +35,7 @@ class Interp(ExprMixin, StmtMixin, CallMixin):
             si.f32_bytes: self.i_f32_bytes, si.f64_bytes: self.i_f64_bytes, si.ghost: self.i_ghost,
             si.fresh_int: self.i_fresh_int, si.f32_of_bytes: self.i_f32_of_bytes, si.f64_of_bytes: self.i_f64_of_bytes, si.prefix_sum: self.i_prefix_sum, si.fresh_bool: self.i_fresh_bool,
             si.region_of: self.i_region_of, si.region_size: self.i_region_size, si.key_of: self.i_key_of, si.reach: self.i_reach,
-            si.reach_transitive: self.i_reach_transitive, si.reach_closed: self.i_reach_closed, si.reach_depth: self.i_reach_depth, si.field_seq: self.i_field_seq, si.has_attr_text: self.i_has_attr_text,
+            si.reach_transitive: self.i_reach_transitive, si.reach_closed: self.i_reach_closed, si.reach_depth: self.i_reach_depth, si.field_seq: self.i_field_seq, si.allocated: self.i_allocated, si.the_region: self.i_the_region, si.has_attr_text: self.i_has_attr_text,
         })
         from . import models_threading
         self.models.update(models_threading.build())
@@ -88,6 +88,8 @@ class Interp(ExprMixin, StmtMixin, CallMixin):
 
     # ------------------------------------------------------------------ symbolic maps
     def map_key(self, cell: MapCell, key):
+        if isinstance(key, MapElem):
+            key = self.unwrap_key(key)
         if isinstance(key, Ref):
             kc = self.path.cell(key)
             if isinstance(kc, ObjCell) and "g_value" in kc.attrs:
@@ -331,6 +333,39 @@ class Interp(ExprMixin, StmtMixin, CallMixin):
             return getattr(obj, p, None) is not None
         arr, n, _ = seqops.as_array(sq)
         return mk("bool", models.has_attr_fn(obj)(arr, to_term(n, "int")))
+
+    def alloc_counter(self, rref):
+        """How many objects of a region have been created so far on this path (symbolic; starts at an arbitrary value >= 0):
+        an object created by the code under contract is the NEXT object of its region."""
+        cell = self.path.cell(rref)
+        counters = self.path.ghost.setdefault("alloc", {})
+        if cell.rname not in counters:
+            t = z3.Int(f"in:alloc:{cell.rname}")
+            self.path.assume(t >= 0)
+            self.path.ex.inputs[f"in:alloc:{cell.rname}"] = {"kind": "int", "term": t}
+            counters[cell.rname] = t
+        return counters[cell.rname]
+
+    def allocate(self, rref):
+        """The next object of the region (the caller has checked / assumed that the region is large enough)."""
+        cell = self.path.cell(rref)
+        t = self.alloc_counter(rref)
+        self.path.ghost["alloc"][cell.rname] = z3.simplify(t + 1)
+        return MapElem(rref, z3.simplify(t))
+
+    def i_the_region(self, I, args, kw):
+        from .verify import make_symbolic
+        return make_symbolic(self, args[0], "region")
+
+    def i_allocated(self, I, args, kw):
+        r = args[0]
+        if isinstance(r, OldView):
+            cell = self.old_heap[r.ref.addr]
+            t0 = self.path.ghost.get("alloc0", {}).get(cell.rname)
+            if t0 is None:
+                t0 = self.path.ghost.get("alloc", {}).get(cell.rname)
+            return mk("int", t0 if t0 is not None else self.alloc_counter(r.ref))
+        return mk("int", self.alloc_counter(r))
 
     def i_field_seq(self, I, args, kw):
         cell, _ = self._region_cell(args[0])
